@@ -51,9 +51,9 @@ pub(super) fn generate_chain_method(
 
     // Combine method generics with our chain-specific generics
     let all_generics = if !method_generic_params.is_empty() {
-        quote! { 'c, #lifetime_bound #method_generic_params, ReplyParams, ReplyError }
+        quote! { 'c, #lifetime_bound #method_generic_params, __ZlinkReplyParams, __ZlinkReplyError }
     } else {
-        quote! { 'c, #lifetime_bound ReplyParams, ReplyError }
+        quote! { 'c, #lifetime_bound __ZlinkReplyParams, __ZlinkReplyError }
     };
 
     let args_with_types: Vec<_> = arg_infos
@@ -75,7 +75,7 @@ pub(super) fn generate_chain_method(
             &'c mut self,
             #(#args_with_types),*
         ) -> #crate_path::Result<
-            #crate_path::connection::chain::Chain<'c, Self::Socket, ReplyParams, ReplyError>
+            #crate_path::connection::chain::Chain<'c, Self::Socket, __ZlinkReplyParams, __ZlinkReplyError>
         >
         #chain_where;
     };
@@ -104,7 +104,7 @@ pub(super) fn generate_chain_method(
             &'c mut self,
             #(#args_with_types),*
         ) -> #crate_path::Result<
-            #crate_path::connection::chain::Chain<'c, Self::Socket, ReplyParams, ReplyError>
+            #crate_path::connection::chain::Chain<'c, Self::Socket, __ZlinkReplyParams, __ZlinkReplyError>
         >
         #chain_where
         {
@@ -122,9 +122,9 @@ fn build_chain_where_clause(method_where_clause: &Option<syn::WhereClause>) -> s
 
     // Add ReplyParams and ReplyError bounds
     chain_where_predicates
-        .push(syn::parse_quote!(ReplyParams: ::serde::Deserialize<'c> + ::core::fmt::Debug));
+        .push(syn::parse_quote!(__ZlinkReplyParams: ::serde::Deserialize<'c> + ::core::fmt::Debug));
     chain_where_predicates
-        .push(syn::parse_quote!(ReplyError: ::serde::Deserialize<'c> + ::core::fmt::Debug));
+        .push(syn::parse_quote!(__ZlinkReplyError: ::serde::Deserialize<'c> + ::core::fmt::Debug));
 
     // Add method where clause predicates if present
     if let Some(method_where) = method_where_clause {
@@ -174,14 +174,14 @@ fn generate_method_call_creation(
         // Create unique struct names for this method to avoid conflicts
         let params_struct_name = syn::Ident::new(
             &format!(
-                "{}Params",
+                "__Zlink{}Params",
                 snake_case_to_pascal_case(&method_name.unraw().to_string())
             ),
             method_name.span(),
         );
         let wrapper_enum_name = syn::Ident::new(
             &format!(
-                "{}Wrapper",
+                "__Zlink{}Wrapper",
                 snake_case_to_pascal_case(&method_name.unraw().to_string())
             ),
             method_name.span(),
@@ -213,7 +213,7 @@ fn generate_method_call_creation(
         // Create unique enum name for this method to avoid conflicts
         let wrapper_enum_name = syn::Ident::new(
             &format!(
-                "{}Wrapper",
+                "__Zlink{}Wrapper",
                 snake_case_to_pascal_case(&method_name.unraw().to_string())
             ),
             method_name.span(),
